@@ -6,7 +6,7 @@
 //	    writes a directory tree with staticcheck.conf files, sets
 //	    config.DefaultConfig.Checks, calls the real config.Load on the innermost
 //	    directory and the real Config.Merge with the command-line list.
-//	c11probe merge <workdir>          (JSON cases on stdin)
+//	c11probe merge <workdir> [cwd]    (JSON cases on stdin)
 //	    gob-encodes a lintResult (structurally identical local types; gob matches by
 //	    field name), then runs the real lintcmd.Command in-process:
 //	    ParseFlags(-merge -f FMT [-fail L] [-show-ignored] file); Execute().
@@ -14,6 +14,7 @@
 //	    -fail, counting, exit status, formatters) with stdout captured.
 //	c11probe gob                      (JSON cases on stdin: {"path":…, "diags":[…]})
 //	    only writes the gob files (for runs of the real staticcheck binary).
+//	c11probe chars | sel | tree <basedir> | lintpkg      see real.go
 //
 // One JSON result per case on stdout.
 package main
@@ -184,6 +185,15 @@ func doLoad(base string, c loadCase) (res loadResult) {
 
 // ---------------------------------------------------------------- merge
 
+type relSpec struct {
+	File  string `json:"file"`
+	Line  int    `json:"line"`
+	Col   int    `json:"col"`
+	ELine int    `json:"eline"`
+	ECol  int    `json:"ecol"`
+	Msg   string `json:"msg"`
+}
+
 type diagSpec struct {
 	File string `json:"file"`
 	Line int    `json:"line"`
@@ -191,6 +201,12 @@ type diagSpec struct {
 	Cat  string `json:"cat"`
 	Msg  string `json:"msg"`
 	Sev  uint8  `json:"sev"` // 0 error, 2 ignored (lintcmd.severity)
+	// end position (same file); HasEnd false: End = Position, as before
+	HasEnd  bool      `json:"has_end"`
+	ELine   int       `json:"eline"`
+	ECol    int       `json:"ecol"`
+	Related []relSpec `json:"related"`
+	Build   string    `json:"build"`
 }
 
 // structurally identical to lintcmd.diagnostic / lintcmd.lintResult
@@ -216,9 +232,22 @@ func writeGob(path string, diags []diagSpec) {
 			res.CheckedFiles = append(res.CheckedFiles, d.File)
 		}
 		pos := token.Position{Filename: d.File, Line: d.Line, Column: d.Col}
+		end := pos
+		if d.HasEnd {
+			end = token.Position{Filename: d.File, Line: d.ELine, Column: d.ECol}
+		}
+		var rel []runner.RelatedInformation
+		for _, r := range d.Related {
+			rel = append(rel, runner.RelatedInformation{
+				Position: token.Position{Filename: r.File, Line: r.Line, Column: r.Col},
+				End:      token.Position{Filename: r.File, Line: r.ELine, Column: r.ECol},
+				Message:  r.Msg,
+			})
+		}
 		res.Diagnostics = append(res.Diagnostics, diagnostic{
-			Diagnostic: runner.Diagnostic{Position: pos, End: pos, Category: d.Cat, Message: d.Msg},
+			Diagnostic: runner.Diagnostic{Position: pos, End: end, Category: d.Cat, Message: d.Msg, Related: rel},
 			Severity:   d.Sev,
+			BuildName:  d.Build,
 		})
 	}
 	f, err := os.Create(path)
@@ -236,6 +265,7 @@ type mergeCase struct {
 	Analyzers   []string   `json:"analyzers"`
 	Fail        *string    `json:"fail"` // nil: flag not given
 	ShowIgnored bool       `json:"show_ignored"`
+	NoCompile   bool       `json:"no_compile"` // -debug.no-compile-errors
 	Format      string     `json:"format"`
 	Diags       []diagSpec `json:"diags"`
 }
@@ -263,6 +293,9 @@ func doMerge(work string, capture *os.File, c mergeCase) mergeResult {
 	if c.ShowIgnored {
 		args = append(args, "-show-ignored")
 	}
+	if c.NoCompile {
+		args = append(args, "-debug.no-compile-errors")
+	}
 	args = append(args, gobPath)
 	cmd.ParseFlags(args)
 
@@ -286,6 +319,18 @@ func doMerge(work string, capture *os.File, c mergeCase) mergeResult {
 	return mergeResult{ID: c.ID, RC: rc, Out: string(out)}
 }
 
+// nothing above the generated trees may contribute a configuration
+func checkNoConfAbove(base string) {
+	for d := filepath.Clean(base); ; d = filepath.Dir(d) {
+		if _, err := os.Stat(filepath.Join(d, config.ConfigName)); err == nil {
+			die("found %s in %s: the directory walk would pick it up", config.ConfigName, d)
+		}
+		if filepath.Dir(d) == d {
+			break
+		}
+	}
+}
+
 // ---------------------------------------------------------------- main
 
 func eachLine(f func(line []byte)) {
@@ -306,7 +351,7 @@ func eachLine(f func(line []byte)) {
 
 func main() {
 	if len(os.Args) < 2 {
-		die("usage: c11probe analyzers|load <dir>|merge <dir>|gob")
+		die("usage: c11probe analyzers|load <dir>|merge <dir>|gob|chars|sel|tree <dir>|lintpkg")
 	}
 	out := bufio.NewWriter(os.Stdout)
 	defer out.Flush()
@@ -320,15 +365,7 @@ func main() {
 			die("load <basedir>")
 		}
 		base := os.Args[2]
-		// nothing above the generated trees may contribute a configuration
-		for d := filepath.Clean(base); ; d = filepath.Dir(d) {
-			if _, err := os.Stat(filepath.Join(d, config.ConfigName)); err == nil {
-				die("found %s in %s: the directory walk would pick it up", config.ConfigName, d)
-			}
-			if filepath.Dir(d) == d {
-				break
-			}
-		}
+		checkNoConfAbove(base)
 		eachLine(func(line []byte) {
 			var c loadCase
 			if err := json.Unmarshal(line, &c); err != nil {
@@ -337,14 +374,20 @@ func main() {
 			enc.Encode(doLoad(base, c))
 		})
 	case "merge":
-		if len(os.Args) != 3 {
-			die("merge <workdir>")
+		if len(os.Args) != 3 && len(os.Args) != 4 {
+			die("merge <workdir> [cwd]")
 		}
 		work := os.Args[2]
 		if err := os.MkdirAll(work, 0o755); err != nil {
 			die("%v", err)
 		}
-		if err := os.Chdir(work); err != nil {
+		// the working directory decides how the formatters shorten paths; several
+		// workers may share it (their scratch files live in <workdir>)
+		cwd := work
+		if len(os.Args) == 4 {
+			cwd = os.Args[3]
+		}
+		if err := os.Chdir(cwd); err != nil {
 			die("%v", err)
 		}
 		capture, err := os.CreateTemp(work, "stdout")
@@ -373,6 +416,37 @@ func main() {
 			}
 			writeGob(c.Path, c.Diags)
 			enc.Encode(map[string]string{"path": c.Path})
+		})
+	case "chars":
+		charsMain(out)
+	case "sel":
+		eachLine(func(line []byte) {
+			var c selCase
+			if err := json.Unmarshal(line, &c); err != nil {
+				die("bad case: %v", err)
+			}
+			enc.Encode(doSel(c))
+		})
+	case "tree":
+		if len(os.Args) != 3 {
+			die("tree <basedir>")
+		}
+		base := os.Args[2]
+		checkNoConfAbove(base)
+		eachLine(func(line []byte) {
+			var c treeCase
+			if err := json.Unmarshal(line, &c); err != nil {
+				die("bad case: %v", err)
+			}
+			enc.Encode(doTree(base, c))
+		})
+	case "lintpkg":
+		eachLine(func(line []byte) {
+			var c lintPkgCase
+			if err := json.Unmarshal(line, &c); err != nil {
+				die("bad case: %v", err)
+			}
+			enc.Encode(doLintPkg(c))
 		})
 	default:
 		die("unknown mode %q", os.Args[1])
